@@ -37,7 +37,7 @@ Op == /\ l <= Len(Rec) /\ Rec[l].ev = "op" /\ l' = l + 1 /\ UNCHANGED hid
             /\ Chk(r.empty = o.empty, "C19_IsEmpty", r.empty)
             /\ Chk(r.get = m'[r.k], "C19_Get", <<r.k, r.get, m'[r.k]>>)
             /\ Chk(r.iter = o.iter, "C19_Iter", <<r.iter, o.iter>>)
-            /\ Chk(r.slots = o.slots, "C19_SerialisedLength", <<r.slots, o.slots>>)
+            \* (the length of the serialised form is the format's business: not judged)
             /\ (IF Len(o.iter) >= 3 /\ max' >= 128 THEN PrintT("COVER|" \o ToString(hid) \o "|1|sparse3") ELSE TRUE)
 
 Next == Reset \/ Op
